@@ -52,6 +52,29 @@ def _sh(cmd, cwd, env=None, timeout=900):
     return p.returncode, p.stdout.decode("utf-8", "replace")
 
 
+def kill_stragglers(rundir):
+    """Processes of this run that outlived their driver (deliberately orphaned test processes that hang inside the code under test are
+    re-parented to init and would spin for ever): everything whose initial environment or executable points into the run directory."""
+    me = os.getpid()
+    needle = rundir.encode()
+    for ent in os.listdir("/proc"):
+        if not ent.isdigit() or int(ent) == me:
+            continue
+        try:
+            with open("/proc/%s/environ" % ent, "rb") as f:
+                env = f.read(65536)
+            exe = os.readlink("/proc/%s/exe" % ent)
+        except OSError:
+            continue
+        if (b"VERIF_INI=" + needle) in env or exe.startswith(rundir):
+            if int(ent) in (os.getppid(),):
+                continue
+            try:
+                os.kill(int(ent), 9)
+            except OSError:
+                pass
+
+
 class Run:
     """One check invocation: private directory tree + builds."""
 
@@ -86,6 +109,8 @@ class Run:
         if self._keep or os.getpid() != self.owner:
             return
         d, self.dir = self.dir, None
+        if d:
+            kill_stragglers(d)
         if d and os.path.isdir(d):
             # children may have created files as other uids / modes
             subprocess.run(["chmod", "-R", "u+rwx", d], stderr=subprocess.DEVNULL)
